@@ -300,3 +300,44 @@ def digest(*objs) -> str:
         else:
             _feed(h, o)
     return h.hexdigest()
+
+
+# ------------------------------------------------------- sequences on one object
+
+# Pairs of grids discretized one after the other with ONE discretization object (and,
+# where the sizes allow, the same tensor objects): hidden state kept on the object must
+# not leak from the first grid into the second. kind of pair:
+#   "topo": same numbers of cells / faces / cell-face pairs, different topology
+#   "geom": same topology, different geometry (different cell volumes)
+#   "moved": the SAME grid object, nodes moved + compute_geometry() between the calls
+SEQ_PAIRS_2D = [
+    ("topo", {"kind": "cart", "n": [3, 2]}, {"kind": "cart", "n": [2, 3]}),
+    ("geom", {"kind": "cart", "n": [3, 3]}, {"kind": "cart", "n": [3, 3], "pert": [[5, [1, -1]]], "map": "shear"}),
+    ("geom", {"kind": "tri", "n": [2, 2]}, {"kind": "tri", "n": [2, 2], "pert": [[4, [1, -1]]], "scale": 2.0}),
+    ("moved", {"kind": "cart", "n": [2, 2]}, {"kind": "cart", "n": [2, 2], "pert": [[4, [1, -1]]], "map": "skew"}),
+    ("moved", {"kind": "tri", "n": [2, 2], "pert": [[4, [1, 1]]]}, {"kind": "tri", "n": [2, 2], "map": "shear"}),
+]
+SEQ_PAIRS_3D = [
+    ("topo", {"kind": "cart", "n": [3, 2, 2]}, {"kind": "cart", "n": [2, 2, 3]}),
+    ("geom", {"kind": "tet", "n": [1, 1, 1]}, {"kind": "tet", "n": [1, 1, 1], "pert": [[7, [1, -1, 1]]], "map": "shear"}),
+    ("moved", {"kind": "cart", "n": [2, 2, 2]}, {"kind": "cart", "n": [2, 2, 2], "map": "skew"}),
+]
+
+
+def get_grid(spec, shared=None):
+    """Grid for ``spec``. With ``shared`` (state of a sequence case): if the sequence is
+    of kind "moved" and a grid object exists already, that SAME object gets the nodes of
+    ``spec`` and ``compute_geometry()`` is called on it."""
+    if shared is None:
+        return build(spec)
+    if shared.get("kind") == "moved" and shared.get("g") is not None:
+        g = shared["g"]
+        g2 = build(spec)
+        if g2.num_cells != g.num_cells or g2.num_faces != g.num_faces:
+            raise RuntimeError("moved pair must have identical topology")
+        g.nodes = g2.nodes.copy()
+        g.compute_geometry()
+        return g
+    g = build(spec)
+    shared["g"] = g
+    return g
